@@ -98,6 +98,9 @@ def run(ctx):
                     return ["IndicatorResult::new(%d values, %d signals) panicked" % (nv, ns)]
                 if core.T_PANIC in io:
                     return ["reading values()/signals() of IndicatorResult::new(%d values, %d signals) panicked (announced lengths %s)" % (nv, ns, io[1:5])]
+                if len(io) > 8 and io[8] != 1:
+                    return ["IndicatorResult::new(%d values, %d signals): value(i)/signal(i) disagree with the values()/signals() slices "
+                            "(an announced index panics or returns another element, or an index beyond the announced length does not panic)" % (nv, ns)]
                 if io[1:7] != [ev, es, ev, es, ev, es] or io[7] != 1:
                     return ["IndicatorResult::new(%d values, %d signals): announced lengths / size() / slice lengths / contents are %s, "
                             "expected %s with the leading inputs" % (nv, ns, io[1:8], [ev, es, ev, es, ev, es, 1])]
